@@ -354,18 +354,35 @@ func Intersect(a, b *Walk) []Overlap {
 // of every map. It returns the number of cells changed.
 func (w *Walk) Mutate() int {
 	n := 0
-	for _, l := range w.Leaves {
+	// The same cell can be reachable along several paths (sharing inside the value): change every
+	// byte once, or a second flip would undo the first.
+	ls := append([]Leaf(nil), w.Leaves...)
+	sort.SliceStable(ls, func(i, j int) bool {
+		if ls[i].Addr != ls[j].Addr {
+			return ls[i].Addr < ls[j].Addr
+		}
+
+		return ls[i].Size > ls[j].Size
+	})
+	var done uintptr // every byte below done has been changed
+	for _, l := range ls {
 		if l.Run {
 			b := unsafe.Slice((*byte)(l.V.Index(0).Addr().UnsafePointer()), int(l.Size))
-			for i := range b {
-				b[i] ^= 1
+			from := 0
+			if done > l.Addr {
+				from = int(done - l.Addr)
 			}
-			n += len(b)
-
+			for i := from; i < len(b); i++ {
+				b[i] ^= 1
+				n++
+			}
+		} else if l.Addr >= done && mutateLeaf(l.V) {
+			n++
+		} else {
 			continue
 		}
-		if mutateLeaf(l.V) {
-			n++
+		if l.Addr+l.Size > done {
+			done = l.Addr + l.Size
 		}
 	}
 	for _, m := range w.Maps {
